@@ -13,8 +13,13 @@
 4. Negative controls: corrupted observations (line shifted by one, file swapped), a stub re-creating the
    tokenizer regression fixed by e1d1e87 (newlines in literals not counted), a stub counting a literal's lines
    with str::lines() (a literal ending in a newline is one line short), a stub relating line numbers of
-   different files for colliding imports and a stub locating errors at the first line of the enclosing statement
-   must be rejected by TLC - and only where the spec says they matter.
+   different files for colliding imports, a stub locating errors at the first line of the enclosing statement, a stub
+   reporting a duplicate definition where the name was written first and a stub losing a line after a conflict-marker
+   look-alike must be rejected by TLC - and only where the spec says they matter.
+Round 5 widened the universe: duplicate top-level names for every ordered pair of kinds of definition (constant /
+function / blob / enum), names declared twice inside a blob or enum declaration (one line and several lines), the three
+conflict markers alone, a whole conflict block and two begin markers (both must be located: the second error is
+observed too), and conflict-marker look-alikes as preceding text.
 """
 import json
 import os
@@ -22,7 +27,8 @@ import vlib
 
 PID = "C15"
 ACTIONS = ("TraceInit", "TraceCheck", "TraceConforms")
-DUP = ("dup_global", "dup_import", "dup_from_import", "dup_use_use", "dup_from_from", "dup_from_use", "dup_use_from")
+DUP = {"dup_global", "dup_import", "dup_from_import", "dup_use_use", "dup_from_from", "dup_from_use", "dup_use_from"}
+TLC_WORKERS = 4     # the machine is shared; more than 4-8 workers do not speed string slicing up anyway
 
 
 def signature(rec, why):
@@ -43,21 +49,25 @@ def sample_of(rec, full):
             "reported": "%s:%d" % (rec["efile"], rec["eline"]) if rec["res"] == "err" else rec["res"]}
 
 
-def run_tlc(wd, name, trace, universe, workers=None, timeout=2400):
-    workers = workers or min(8, vlib.NCPU)   # string slicing contends on TLC's intern table: 8 is as fast as 16
+def run_tlc(wd, name, trace, universe, workers=None, timeout=2400, coverage=True):
+    workers = workers or min(TLC_WORKERS, vlib.NCPU)
     r = vlib.tlc("MC_TraceDiag", cfg="MC_TraceDiag.cfg", wd=wd, env={"TRACE": trace, "UNIVERSE": universe},
-                 tags=("REJECT",), workers=workers, timeout=timeout, out_file=os.path.join(wd, "tlc-" + name + ".out"))
+                 tags=("REJECT",), workers=workers, timeout=timeout, coverage=coverage,
+                 out_file=os.path.join(wd, "tlc-" + name + ".out"))
     vlib.require_tlc_ok(r, "Trace_Diag/" + name)
     rejects = list({p["rec"]: p for (_, p) in r.records}.values())  # ENABLED re-evaluates PrintT: dedupe
     return r, rejects
 
 
-def validate(wd, name, trace, fullpath, universe, ev, verdicts, workers=None, guards=True):
+def validate(wd, name, trace, fullpath, universe, ev, verdicts, workers=None, guards=True, coverage=True):
+    """coverage=False (the big cross product: TLC's -coverage costs a third of the run): the action counts follow from the
+    state count (every record passes new -> run -> verdict, checked below) and the REJECT lines; the action-coverage
+    vacuity guard then rests on the random-variations run, which uses the same spec with coverage on."""
     recs = vlib.read_ndjson(trace)
     fulls = vlib.read_ndjson(fullpath)
     if len(recs) != len(fulls) or not recs:
         vlib.tool_error("%s: trace and case files disagree or are empty" % name)
-    r, rejects = run_tlc(wd, name, trace, universe, workers=workers)
+    r, rejects = run_tlc(wd, name, trace, universe, workers=workers, coverage=coverage)
     base_bad = [x for x in rejects if x["why"] == "base-rejected"]
     bad = [x for x in rejects if x["why"] != "base-rejected"]
     # vacuity: the templates must be valid programs apart from the planted error
@@ -65,7 +75,7 @@ def validate(wd, name, trace, fullpath, universe, ev, verdicts, workers=None, gu
         ex = fulls[base_bad[0]["rec"] - 1]
         vlib.tool_error("vacuity: %d of %d base programs of %s were rejected, e.g. %s: %s" % (
             len(base_bad), len(recs), name, json.dumps(ex["case"]), ex["base_error"][:300]))
-    for act in ACTIONS if guards else ():
+    for act in ACTIONS if guards and coverage else ():
         if r.coverage.get(act, (0, 0))[1] == 0:
             vlib.tool_error("vacuity: trace action %s never taken in %s" % (act, name))
     # every record is three states (new, run, verdict); (coverage counts are summed over TLC's periodic reports)
@@ -81,10 +91,17 @@ def validate(wd, name, trace, fullpath, universe, ev, verdicts, workers=None, gu
         if rec["kind"] in DUP:
             what += " (the later of the two introductions of the name is %s:%d; imported modules laid out %s)" % (
                 rej["expected_file"], rej["expected_line"], rec["rel"])
+        if rej["why"].startswith("second-"):
+            what = "%s planted at %s:%d (%s, after %s): the first error is located correctly, the SECOND offending element " \
+                   "stands at %s:%d but the second error is reported %s" % (
+                       rec["kind"], rec["path"], line_of(rec["text"], rec["marker"]), rec["pos"], rec["shape"], rec["path"],
+                       line_of(rec["text"], rec["marker2"]),
+                       ("at %s:%d" % (rec["efile2"], rec["eline2"])) if rec["eline2"] else "not at all")
         verdicts.add(sig, what, {"case": full["case"], "files": full["files"], "path": full["path"],
                                  "planted_line": line_of(rec["text"], rec["marker"]),
                                  "expected": {"file": rej["expected_file"], "line": rej["expected_line"]},
-                                 "observed": {"res": rec["res"], "file": rec["efile"], "line": rec["eline"]},
+                                 "observed": {"res": rec["res"], "file": rec["efile"], "line": rec["eline"],
+                                              "second_file": rec["efile2"], "second_line": rec["eline2"]},
                                  "first_error_rendered": full["first_error_rendered"]})
     ev.add("states", r.distinct)
     ev.add("transitions", r.generated)
@@ -95,7 +112,10 @@ def validate(wd, name, trace, fullpath, universe, ev, verdicts, workers=None, gu
     ev.cov["dropped"]["base_rejected"] += len(base_bad)
     ev.cov.setdefault("universes", {})[name] = {
         "records": len(recs), "rejected": len(bad), "base_rejected": len(base_bad), "tlc_states": r.distinct,
-        "tlc_wall_s": round(r.wall_s, 1), "actions": {k: v[1] for k, v in r.coverage.items() if k.startswith("Trace")},
+        "tlc_wall_s": round(r.wall_s, 1),
+        "actions": ({k: v[1] for k, v in r.coverage.items() if k.startswith("Trace")} if coverage else
+                    {"TraceInit": len(recs), "TraceCheck": len(recs), "TraceConforms": len(recs) - len(rejects),
+                     "TraceReject": len(bad), "TraceBaseRejected": len(base_bad), "derived_from": "state count and REJECT lines"}),
         "per_kind": {kd: sum(1 for x in recs if x["kind"] == kd) for kd in sorted({x["kind"] for x in recs})}}
     return recs, fulls, bad
 
@@ -106,6 +126,13 @@ def corrupt_records(recs, bad):
     good = [x for i, x in enumerate(recs) if (i + 1) not in badset and x["base_ok"] and x["res"] == "err"]
     picked = good[::max(1, len(good) // 150)]
     out = []
+    for x in [x for x in good if x["marker2"]][:30]:      # the second observation of a form with two offending elements
+        y = dict(x)
+        y["eline2"] = x["eline2"] - 1
+        out.append((y, "second-earlier"))
+        y = dict(x)
+        y["eline2"], y["efile2"] = 0, ""
+        out.append((y, "second-missing"))
     for i, x in enumerate(picked):
         y = dict(x)
         if i % 3 == 0:
@@ -163,13 +190,31 @@ def controls(wd, recs, bad, stats):
     for x in stub_records(wd, "stmt", shapes=["none", "tabs", "str_endnl_init"],
                           kinds=sorted(ml) + ["syn_rparen", "unresolved", "arg_mismatch", "op_mismatch", "const_global"]):
         items.append(("stmt", x, "earlier" if x["kind"] in ml else "conform"))
+    # (f) a duplicate definition reported where the name was written FIRST (the two writings are on different lines)
+    dd = set(stats["dd_kinds"])
+    for x in stub_records(wd, "first", shapes=["none", "tabs", "mk_lt_cmt"], files=["main", "sub"],
+                          kinds=sorted(dd) + ["dup_global", "syn_rparen", "unresolved", "dup_field1", "ml_dup_field_gap"]):
+        items.append(("first", x, "earlier" if x["kind"] in dd else "conform"))
+    # (g) the conflict scan loses a line after a begin marker that is no conflict: exactly the shapes the spec says hold one
+    lt = set(stats["lt_decoy_shapes"])
+    other_marks = sorted(set(stats["mark_shapes"]) - lt)
+    if not lt or not other_marks:
+        vlib.tool_error("the spec names no look-alike shapes with / without the begin marker")
+    for x in stub_records(wd, "decoy", shapes=["none", "ascii_comment", "ml_string2"] + sorted(lt) + other_marks,
+                          files=["sibling"], kinds=sorted(stats["conflict_kinds"]) + ["syn_rparen", "unresolved"]):
+        hit = x["shape"] in lt and x["kind"] in stats["conflict_kinds"]
+        items.append(("decoy", x, "earlier" if hit else "conform"))
     path = os.path.join(wd, "neg-controls.ndjson")
     vlib.write_ndjson(path, [y for (_, y, _) in items])
     _, rejects = run_tlc(wd, "neg-controls", path, "part")
     got = {x["rec"]: x["why"] for x in rejects}
     counts = {}
-    for i, (name, _, want) in enumerate(items):
+    # a case the implementation itself gets wrong in the cross product says nothing about a stub: not constrained
+    bad_idx = {recs[x["rec"] - 1]["idx"] for x in bad}
+    for i, (name, y, want) in enumerate(items):
         why = got.get(i + 1)
+        if name != "corrupt" and y["idx"] in bad_idx:
+            want = None
         c = counts.setdefault(name, {"records": 0, "must_reject": 0, "rejected_as_required": 0, "must_conform": 0,
                                      "wrongly_rejected": 0})
         c["records"] += 1
@@ -182,7 +227,7 @@ def controls(wd, recs, bad, stats):
     for name, c in counts.items():
         if c["must_reject"] == 0 or c["rejected_as_required"] != c["must_reject"] or c["wrongly_rejected"]:
             vlib.tool_error("negative control %s accepted: %s" % (name, json.dumps(c)))
-    for name in ("f1", "lines", "xfile", "stmt"):
+    for name in ("f1", "lines", "xfile", "stmt", "first", "decoy"):
         if counts[name]["must_conform"] == 0:
             vlib.tool_error("negative control %s has no case that must stay conforming" % name)
     return counts
@@ -212,17 +257,21 @@ def run(ctx):
             os.remove(os.path.join(rdir, fn))
 
     # 1. the specification on its own
-    r = vlib.tlc("MC_Diag", wd=wd, timeout=900, tags=("STATS",))
+    r = vlib.tlc("MC_Diag", wd=wd, timeout=900, tags=("STATS",), workers=min(TLC_WORKERS, vlib.NCPU))
     vlib.require_tlc_ok(r, "SyltDiag generator model")
     for act in ("DiagInit", "DiagStep"):
         if r.coverage.get(act, (0, 0))[1] == 0:
             vlib.tool_error("vacuity: spec action %s never taken" % act)
     stats = r.records[0][1] if r.records else vlib.tool_error("MC_Diag printed no STATS record")
+    DUP.update(stats["dup_kinds"])
     ev.set(spec_model={"states": r.distinct, "sample_texts": stats["samples"],
                        "universe": {k: v for k, v in stats.items() if not isinstance(v, list)},
                        "shape_names": stats["shape_names"], "shapes_ending_a_literal_with_a_newline": stats["ends_nl_shapes"],
                        "kinds_with_module_layout_dimension": stats["from_kinds"],
                        "multi_line_kinds": stats["ml_kinds"],
+                       "duplicate_definition_kinds": stats["dd_kinds"], "declaration_kinds": stats["decl_kinds"],
+                       "conflict_kinds": stats["conflict_kinds"], "kinds_with_two_offending_elements": stats["two_kinds"],
+                       "look_alike_shapes": stats["mark_shapes"], "look_alike_shapes_with_begin_marker": stats["lt_decoy_shapes"],
                        "invariants": ["LineAgrees", "PrevNLAgrees", "ColSane", "SampleLineOK"], "assumes": ["UniverseOK"],
                        "tlc_wall_s": round(r.wall_s, 1)})
     ev.add("states", r.distinct)
@@ -231,7 +280,7 @@ def run(ctx):
     # 2. conformance: the full cross product, decided by TLC
     t_cross, f_cross = os.path.join(wd, "cross.ndjson"), os.path.join(wd, "cross-cases.ndjson")
     vlib.harness("c15", ["cross", t_cross, f_cross])
-    recs, fulls, bad = validate(wd, "cross-product", t_cross, f_cross, "cross", ev, verdicts)
+    recs, fulls, bad = validate(wd, "cross-product", t_cross, f_cross, "cross", ev, verdicts, coverage=False)
     if len(recs) != stats["applicable"]:
         vlib.tool_error("harness rendered %d cases, the spec's universe has %d" % (len(recs), stats["applicable"]))
     badset = {x["rec"] for x in bad}
@@ -255,7 +304,9 @@ def run(ctx):
                "corrupted_observations": counts["corrupt"], "stub_f1_newlines_in_literals_not_counted": counts["f1"],
                "stub_lines_literal_ending_in_newline_one_short": counts["lines"],
                "stub_xfile_line_numbers_related_across_files": counts["xfile"],
-               "stub_stmt_first_line_of_the_statement_instead_of_the_element": counts["stmt"]})
+               "stub_stmt_first_line_of_the_statement_instead_of_the_element": counts["stmt"],
+               "stub_first_duplicate_definition_reported_at_the_first_writing": counts["first"],
+               "stub_decoy_line_lost_after_a_begin_marker_that_is_no_conflict": counts["decoy"]})
 
     ev.set(samples=samples, exhaustive=True, exhaustive_scope="the cross product; the random variations are sampled",
            distinct_nontrivial=distinct,
@@ -273,7 +324,10 @@ def run(ctx):
               "the offending element of every planted form is written on one line, so 'the line where the construct is written' "
               "is unambiguous; for the multi-line kinds the element (argument, list/tuple/blob element, imported name, operand "
               "expression, statement of a block lambda) is the construct, not the statement that contains it",
-              "only the FIRST returned error's file and span.line_start are observed, never message texts")
+              "a name written twice - two top-level definitions of any kinds, two fields of a blob declaration, two variants "
+              "of an enum declaration - makes the SECOND writing the offending construct",
+              "only the FIRST returned error's file and span.line_start are observed (for a form with two offending elements "
+              "- two conflict markers - also the second error's), never message texts")
     rc = verdicts.finish()
     ev.violations = len(verdicts.violations)
     ev.write()
